@@ -29,6 +29,7 @@ pub fn run(prop: &str, tier: &str, replay: Option<&str>) -> i32 {
     let thorough = tier == "thorough";
     let mut rep = Report::new(prop, tier);
     rep.assume("platform is Linux: LF line endings are required; the Windows CRLF branch cannot be exercised here");
+    let children = if cfg!(feature = "ring") { vec![run::spawn_child("aws", prop, tier)] } else { vec![] };
     let zoo = load_zoo();
     let ed = zoo.iter().find(|z| z.kind == KeyKind::Ed25519).unwrap();
     let kp = rc_load(ed, Alg::Ed25519).expect("ed25519 key");
@@ -179,7 +180,14 @@ pub fn run(prop: &str, tier: &str, replay: Option<&str>) -> i32 {
             let priv_pem = kp.serialize_pem();
             let priv_der = kp.serialize_der();
             note("PRIVATE KEY", priv_der.len());
-            check_pem("private key", &priv_pem, "PRIVATE KEY", &priv_der, &mut f);
+            // the label the standard registers for this content: PKCS#8 => PRIVATE KEY, SEC1 => EC PRIVATE KEY, PKCS#1 => RSA PRIVATE KEY
+            let content_label = match refmodel::x509::lenient_tree(&priv_der) {
+                Some(n) if n.children.len() >= 3 && n.children[1].is_univ(refmodel::der::T_SEQUENCE) && n.children[2].is_univ(refmodel::der::T_OCTETSTRING) => "PRIVATE KEY",
+                Some(n) if n.children.len() >= 2 && n.children[1].is_univ(refmodel::der::T_OCTETSTRING) => "EC PRIVATE KEY",
+                Some(n) if n.children.len() >= 9 && n.children.iter().all(|c| c.is_univ(refmodel::der::T_INTEGER)) => "RSA PRIVATE KEY",
+                _ => "PRIVATE KEY",
+            };
+            check_pem("private key", &priv_pem, content_label, &priv_der, &mut f);
             let pub_pem = kp.public_key_pem();
             let pub_der = kp.public_key_der();
             note("PUBLIC KEY", pub_der.len());
@@ -252,6 +260,7 @@ pub fn run(prop: &str, tier: &str, replay: Option<&str>) -> i32 {
     }
     drop(res);
     rep.extra.insert("der_length_residues_mod_48_covered".into(), serde_json::Value::Object(cov));
+    run::join_children(&mut rep, children);
     run::finish(rep)
 }
 
